@@ -497,3 +497,46 @@ Definition wf_instb (I : tinst) : bool :=
                                       <=? rget (tw_total w) r) (running_keys I)) (ti_workers I) &&
   forallb (fun x => forallb (fun pid => match find_tt (ti_tasks I) pid with Some _ => true | None => false end) (tt_parents x)
                     && (Z.of_nat (length (tt_parents x)) <=? tt_nparents x)) (ti_tasks I).
+
+(* ---- maximality monitor and brute-force optimum (C14 part): PlanSpec evaluated on every candidate
+   (slot, worker, strategy) of every task; independent of the formulation's rows *)
+Definition rewarded_fb (I : tinst) (x : ttask) : bool :=
+  match ti_flavour I with Gurobi => rewarded I x | Cplex => true end.
+Definition candidates (I : tinst) (x : ttask) : list placement :=
+  map (fun c => match c with (w, t, (i, _)) => mkPl (tt_id x) (tw_idx w) i t end) (cells I x).
+Definition feasible_tetrib (I : tinst) (p : plan) : bool := feasibleb_at (conv_tetri I) (to_pinst I) p (slots I).
+Definition placed_in (p : plan) (id : Z) : bool := existsb (fun pl => pl_task pl =? id) p.
+Definition addable (I : tinst) (p : plan) (x : ttask) : bool :=
+  existsb (fun pl => feasible_tetrib I (pl :: p)) (candidates I x).
+Definition maximal_okb (I : tinst) (p : plan) : bool :=
+  forallb (fun x => is_running x || negb (rewarded_fb I x) || placed_in p (tt_id x) || negb (addable I p x)) (ti_tasks I).
+(* the same with the simulator's convention for RUNNING tasks (remaining time) and chosen runtimes, on the grid *)
+Definition conv_sim_grid (I : tinst) : conv := mkConv 0 0 0 false false (on_grid I) (ti_enforce I).
+Definition addable_sim (I : tinst) (p : plan) (x : ttask) : bool :=
+  existsb (fun pl => feasibleb_at (conv_sim_grid I) (to_pinst I) (pl :: p) (instants (to_pinst I) (pl :: p))) (candidates I x).
+
+(* hypotheses of the maximality theorem, decidable part *)
+Definition max_hypb (I : tinst) : bool :=
+  wf_instb I && (0 <=? ti_now I) &&
+  forallb (fun x => negb (is_running x) && (tt_nparents x =? Z.of_nat (length (tt_parents x))) &&
+                    forallb (fun s => 0 <? st_runtime s) (tt_strats x)) (ti_tasks I).
+
+Fixpoint all_plans (I : tinst) (xs : list ttask) : list plan :=
+  match xs with
+  | [] => [[]]
+  | x :: xs' =>
+      let rest := all_plans I xs' in
+      let cands := filter (fun pl => timing_okb (conv_tetri I) (to_pinst I) pl && pl_wellformedb (to_pinst I) pl) (candidates I x) in
+      (if must_stay I x then [] else rest) ++ flat_map (fun pl => map (cons pl) rest) cands
+  end.
+Definition plan_value (I : tinst) (p : plan) : Z :=
+  fold_right Z.add 0 (map (fun pl => match find_tt (ti_tasks I) (pl_task pl) with
+                                     | Some x => if rewarded_fb I x then reward_num I (pl_start pl) else 0
+                                     | None => 0 end) p).
+Definition brute_best (I : tinst) : Z :=
+  fold_right Z.max 0 (map (plan_value I) (filter (feasible_tetrib I) (all_plans I (free_tasks I)))).
+(* [hypotheses hold; solver value <= brute-force optimum; within the 10% gap; solver's plan maximal] *)
+Definition brute_check (I : tinst) (objval : Z) (p : plan) : val :=
+  let b := brute_best I in
+  L [vbool (max_hypb I); vbool (objval <=? b); vbool (10 * b <=? 11 * objval); vbool (maximal_okb I p);
+     vbool (plan_value I p =? objval)].
